@@ -1,5 +1,29 @@
 //@unit props=C07,C13 tier=quick rlimit=30
 //@file src/algo/bellman_ford_moore.rs
+// C07 for BellmanFordMoore (src/algo/bellman_ford_moore.rs), C13 for every index it touches and for `dist_u + w`.
+//
+// The digraph is the opaque `Dgi` (prelude/dgw_isize.rs): the algorithm is verified against the trait contracts of
+// ContiguousOrder::contiguous_order and ArcsWeighted::arcs_weighted (every arc exactly once with its weight, arc ends
+// below the order) only.  The source is not stored in the struct; a state built by `new(digraph, s)` is recognised
+// by `fresh_at(dist, s)` and `distances` is specified for such states (`src_of` recovers s).
+//
+// distances: the pass invariant (`pass_inv`, speclib/bfm_lemmas.rs) is stated over the number j = min(i, arcs_len) of
+// arcs relaxed so far in the pass, so that it has to hold for every residue of arcs_len modulo 4 of the hand-unrolled
+// loop: each of the four blocks is shown to be exactly `relax_result(dist, arcs[j])` and to advance j by one.
+// Soundness ("Some(d) ==> d is the table of minimum walk weights, MAX exactly on the unreachable vertices" and
+// "reachable negative closed walk ==> None") uses the final check loop only: no relaxable arc = feasible potential,
+// every finite label has a witness walk, lemma_certificate.  Completeness ("no reachable negative cycle ==> Some")
+// uses the (n-1)-round argument: after k passes every walk of at most k arcs from s weighs at least the label of its
+// end (`kbound`), and without negative cycles every walk can be shortened to a duplicate-free path (lemma_shorten).
+//
+// Arithmetic side condition `sums_fit` ("path sums fit in isize"): there is B >= 1 with |w(a)| <= B for every arc and
+// B * order^3 < isize::MAX.  order^3 bounds the number of relaxations (<= order - 1 passes over <= order^2 arcs, plus
+// the final check) and every label is a sum of at most that many arc weights.  A bound on duplicate-free path sums
+// alone (order * B) is NOT sufficient for this code when a negative circuit is reachable: labels keep falling by up
+// to arcs_len * B per pass.  Concrete input (reproduced against the crate): ring 0->1->2->3->4->0, every weight
+// -(isize::MAX / 10), source 0: debug build panics `attempt to add with overflow` (line 277), release build wraps
+// and returns Some([...]) although a negative circuit is reachable.  Also order 3, arcs 0->1, 1->0, 0->2, 2->0 of
+// weight -(isize::MAX / 4): debug panics at line 355, release returns Some.
 #![feature(allocator_api)]
 use vstd::prelude::*;
 use vstd::std_specs::iter::IteratorSpec;
@@ -9,25 +33,203 @@ global size_of usize == 8;
 //@include prelude/std_contracts.rs
 //@include prelude/dgw_isize.rs
 //@include speclib/graph.rs
+//@include speclib/bfm_lemmas.rs
 
 /*@struct name=BellmanFordMoore subst=D=>Dgi drop=D @*/
 
 impl<'a> BellmanFordMoore<'a> {
     /*@fn impl=BellmanFordMoore name=new subst=D=>Dgi drop=D dropwhere=D
-    requires
-        digraph.wf(),
     ensures
         s < digraph.ord(),
         r.digraph == digraph,
         r.dist@.len() == digraph.ord(),
+        r.dist@[s as int] == 0,
+        forall|v: int| 0 <= v < r.dist@.len() && v != s ==> #[trigger] r.dist@[v] == isize::MAX,
+        fresh_at(r.dist@, s as int),
     @*/
 
     /*@fn impl=BellmanFordMoore name=distances subst=D=>Dgi dropwhere=D
     requires
         old(self).digraph.wf(),
+        old(self).dist@.len() == old(self).digraph.ord(),
+        is_fresh(old(self).dist@),
+        sums_fit(old(self).digraph),
     ensures
-        true,
+        final(self).digraph == old(self).digraph,
+        // C07: None whenever a negative-weight circuit is reachable from s
+        neg_closed_walk_reachable(has_of(old(self).digraph), wt_of(old(self).digraph), src1(src_of(old(self).dist@))) ==> r is None,
+        // C07: Some whenever there is no negative-weight circuit (it suffices that none is reachable from s)
+        !neg_cycle_reachable(has_of(old(self).digraph), wt_of(old(self).digraph), src1(src_of(old(self).dist@))) ==> r is Some,
+        // C07: Some(d) ==> d[v] is the minimum weight of a walk from s to v, and isize::MAX exactly when v is unreachable
+        r matches Some(d) ==> c07_some(old(self).digraph, src_of(old(self).dist@), d@),
+    @fn_start
+        let ghost dg = self.digraph;
+        let ghost s = src_of(self.dist@);
+        let ghost b = choose|b: int| fits(dg, b);
+        let ghost mut t: int = 0;
+        proof {
+            assert(fresh_at(self.dist@, s));
+            lemma_fresh_inv(dg, self.dist@, s);
+            assert(limit(0, b) == 0);
+        }
+    @after `let arcs_len`
+        proof {
+            assert(arc_list_ok(dg, arcs@)) by {
+                assert forall|u: int, v: int| #[trigger] dg.has(u, v) implies exists|i: int| 0 <= i < arcs@.len() && (#[trigger] arcs@[i]).0 == u && arcs@[i].1 == v by {
+                    assert(dg.has(u as usize as int, v as usize as int));
+                }
+            }
+            lemma_arc_count(dg, arcs@);
+            lemma_budget(order as int, arcs_len as int, 0, 0);
+            lemma_limit_fits(dg, b, cube(order as int));
+            assert(arcs_len < isize::MAX) by {
+                assert(cube(order as int) <= b * cube(order as int)) by (nonlinear_arith) requires b >= 1, cube(order as int) >= 0;
+            }
+        }
+    @loop 1
+    invariant_except_break
+        t <= it1.index@ * arcs_len,
+        kbound(dg, self.dist@, s, it1.index@ as int),
+    invariant
+        self.digraph == dg, dg.wf(), order == dg.ord(), fits(dg, b),
+        arcs_len == arcs@.len(), arc_list_ok(dg, arcs@), arcs_len <= order * order, arcs_len < isize::MAX,
+        it1.seq().len() == order - 1,
+        0 <= t,
+        base_inv(dg, self.dist@, s, limit(t, b)),
+    ensures
+        t <= (order - 1) * arcs_len,
+        all_tight(self.dist@, arcs@) || kbound(dg, self.dist@, s, order - 1),
+    @loop_start 1
+        let ghost d0 = self.dist@;
+        let ghost t0 = t;
+        let ghost mut j: int = 0;
+    @loop 2
+    invariant
+        self.digraph == dg, dg.wf(), order == dg.ord(), fits(dg, b),
+        arcs_len == arcs@.len(), arc_list_ok(dg, arcs@), arcs_len <= order * order, arcs_len < isize::MAX,
+        0 <= it1.index@ < order - 1,
+        0 <= t0 <= it1.index@ * arcs_len,
+        kbound(dg, d0, s, it1.index@ as int),
+        t == t0 + j,
+        // j arcs have been relaxed in this pass: all below i, or all of them once i has run past the end
+        j == (if i < arcs_len { i as int } else { arcs_len as int }),
+        i <= arcs_len + 3,
+        pass_inv(dg, arcs@, s, d0, self.dist@, j, limit(t, b), updated),
+    decreases
+        arcs_len + 4 - i,
+    @before #1 `let (`
+        let ghost dpre = self.dist@;
+        let ghost upre = updated;
+        proof {
+            lemma_mul_step(it1.index@ as int, arcs_len as int, order - 1);
+            lemma_budget(order as int, arcs_len as int, it1.index@ + 1, t);
+            lemma_step_pre(dg, arcs@, s, b, dpre, t, i as int);
+        }
+    @after #1 `if dist_u != isize::MAX`
+        proof {
+            lemma_relax_step(dg, arcs@, s, b, d0, dpre, j, limit(t, b), upre, self.dist@, updated);
+            lemma_limit_step(t, b);
+            j = j + 1;
+            t = t + 1;
+        }
+    @before #2 `let (`
+        let ghost dpre = self.dist@;
+        let ghost upre = updated;
+        proof {
+            lemma_mul_step(it1.index@ as int, arcs_len as int, order - 1);
+            lemma_budget(order as int, arcs_len as int, it1.index@ + 1, t);
+            lemma_step_pre(dg, arcs@, s, b, dpre, t, i as int);
+        }
+    @after #2 `if dist_u != isize::MAX`
+        proof {
+            lemma_relax_step(dg, arcs@, s, b, d0, dpre, j, limit(t, b), upre, self.dist@, updated);
+            lemma_limit_step(t, b);
+            j = j + 1;
+            t = t + 1;
+        }
+    @before #3 `let (`
+        let ghost dpre = self.dist@;
+        let ghost upre = updated;
+        proof {
+            lemma_mul_step(it1.index@ as int, arcs_len as int, order - 1);
+            lemma_budget(order as int, arcs_len as int, it1.index@ + 1, t);
+            lemma_step_pre(dg, arcs@, s, b, dpre, t, i as int);
+        }
+    @after #3 `if dist_u != isize::MAX`
+        proof {
+            lemma_relax_step(dg, arcs@, s, b, d0, dpre, j, limit(t, b), upre, self.dist@, updated);
+            lemma_limit_step(t, b);
+            j = j + 1;
+            t = t + 1;
+        }
+    @before #4 `let (`
+        let ghost dpre = self.dist@;
+        let ghost upre = updated;
+        proof {
+            lemma_mul_step(it1.index@ as int, arcs_len as int, order - 1);
+            lemma_budget(order as int, arcs_len as int, it1.index@ + 1, t);
+            lemma_step_pre(dg, arcs@, s, b, dpre, t, i as int);
+        }
+    @after #4 `if dist_u != isize::MAX`
+        proof {
+            lemma_relax_step(dg, arcs@, s, b, d0, dpre, j, limit(t, b), upre, self.dist@, updated);
+            lemma_limit_step(t, b);
+            j = j + 1;
+            t = t + 1;
+        }
+    @before `if !updated`
+        proof {
+            lemma_pass_end(dg, arcs@, s, d0, self.dist@, limit(t, b), updated, it1.index@ as int);
+            lemma_mul_step(it1.index@ as int, arcs_len as int, order - 1);
+        }
+    @after `for _ in`
+        let ghost dfin = self.dist@;
+        proof {
+            lemma_budget(order as int, arcs_len as int, order - 1, t);
+            if !neg_cycle_reachable(has_of(dg), wt_of(dg), src1(s)) && !all_tight(self.dist@, arcs@) {
+                lemma_complete(dg, arcs@, s, self.dist@, limit(t, b));
+            }
+        }
+    @loop 3
+    invariant
+        self.digraph == dg, dg == old(self).digraph, s == src_of(old(self).dist@), fits(dg, b),
+        arcs_len == arcs@.len(), arc_list_ok(dg, arcs@),
+        0 <= t, t + 1 <= cube(dg.ord() as int),
+        base_inv(dg, self.dist@, s, limit(t, b)),
+        it3.seq().len() == arcs_len,
+        forall|k: int| 0 <= k < it3.seq().len() ==> #[trigger] it3.seq()[k] == k,
+        forall|k: int| 0 <= k < it3.index@ ==> tight(self.dist@, #[trigger] arcs@[k]),
+        !neg_cycle_reachable(has_of(dg), wt_of(dg), src1(s)) ==> all_tight(self.dist@, arcs@),
+    @before #5 `let (`
+        proof {
+            lemma_step_pre(dg, arcs@, s, b, self.dist@, t, i as int);
+        }
+    @before `return None`
+        proof {
+            assert(!tight(self.dist@, arcs@[i as int]));
+        }
+    @fn_end
+        proof {
+            lemma_limit_step(t, b);
+            lemma_limit_fits(dg, b, t + 1);
+            lemma_sound(dg, arcs@, s, b, self.dist@, limit(t, b));
+        }
     @*/
+}
+
+/// Composition check (client code, not crate code): C07 as stated, for `new` followed by `distances`.
+fn harness_c07(dg: &Dgi, s: usize)
+    requires
+        dg.wf(),
+        sums_fit(dg),
+{
+    let mut bfm = BellmanFordMoore::new(dg, s);
+    proof { lemma_fresh_unique(bfm.dist@, s as int); }
+    let r = bfm.distances();
+    assert(s < dg.ord());
+    assert(neg_closed_walk_reachable(has_of(dg), wt_of(dg), src1(s as int)) ==> r is None);
+    assert(!neg_cycle_reachable(has_of(dg), wt_of(dg), src1(s as int)) ==> r is Some);
+    assert(r matches Some(d) ==> c07_some(dg, s as int, d@));
 }
 
 } // verus!
